@@ -2,6 +2,7 @@ package vh
 
 import (
 	"net/http"
+	"runtime"
 	"strings"
 
 	"bufio"
@@ -61,6 +62,7 @@ type CorrScenario struct {
 	Ops      int    `json:"ops"`
 	Size     int    `json:"size"`
 	Hold     int    `json:"hold"`
+	Barrier  bool   `json:"barrier"`
 }
 
 // PStr is the argument type used with the plain codec (a named string type).
@@ -418,12 +420,25 @@ func runCorr(rec *Rec, sc *CorrScenario, n int) {
 	}
 	var wg sync.WaitGroup
 	var started, finished int64
+	// barrier profile: round i starts for all goroutines of a session at the same instant
+	arrive := make([][]int32, len(pairs))
+	for si := range arrive {
+		arrive[si] = make([]int32, sc.Ops)
+	}
 	for si, p := range pairs {
 		for g := 0; g < sc.Gor; g++ {
 			wg.Add(1)
 			go func(si, g int, p pair) {
 				defer wg.Done()
 				for i := 0; i < sc.Ops; i++ {
+					if sc.Barrier {
+						atomic.AddInt32(&arrive[si][i], 1)
+						for spin := 0; atomic.LoadInt32(&arrive[si][i]) < int32(sc.Gor); spin++ {
+							if spin%200 == 199 {
+								runtime.Gosched()
+							}
+						}
+					}
 					tag := fmt.Sprintf("%s.%d.%d.%d", sc.ID, si, g, i)
 					pad := PadFor(tag, sc.Size)
 					settings := append([]erpc.MessageSetting{codecSetting(sc.Codec)}, MetaFor(tag)...)
